@@ -1,8 +1,9 @@
 (** C12 — At most one TCP connection or connection attempt to the peer at any time. *)
 From YV Require Import lib.Base model.YWorld model.YProto gen.Consts gen.FsmGen model.YFraming
-  model.YSession proof.SessionC12.
+  model.YSession proof.SessionC12 proof.SessionC13 proof.SessionRP proof.SessionSR proof.SessionCD
+  proof.SessionSR6 proof.SessionSR7.
 
-Definition live (k : conn) : bool :=
+Definition live (k : conn) : bool :=    (* = proof.SessionSR.live, see [C12_live_same] *)
   match c_st k with
   | CConnecting => true
   | CConnected => negb (c_closing k)      (* open and not yet aborted by the agent *)
@@ -40,3 +41,56 @@ Theorem C12_writes_to_tracked : forall (D : decoders) (e : event) (w : world) c 
   In (OWrite c m) (w_out (step D w e)) -> w_proto (step D w e) = Some c.
 Proof. intros D e w. exact (writes_to_tracked D e w). Qed.
 Print Assumptions C12_writes_to_tracked.
+
+(** a second manual way to two attempts (known finding C12-start-while-connecting) *)
+Theorem C12_refuted_start_while_connecting :
+  live_count (run D0 (world0 cf0 []) [EBoot; EManualStop; EManualStart]) = 2%nat.
+Proof. vm_compute. reflexivity. Qed.
+Print Assumptions C12_refuted_start_while_connecting.
+
+Lemma C12_live_same k : live k = SessionSR.live k.
+Proof. unfold live, SessionSR.live. destruct (c_st k); reflexivity. Qed.
+Print Assumptions C12_live_same.
+
+(** PROVED: these are the ONLY ways.  Along every event sequence after start-up in which the
+    connect-retry timer does not expire, and no manual start (or second start-up call) is issued,
+    while a connection attempt is pending ([guarded_run]: exactly the triggers of the known findings
+    C12-retry-while-connecting and C12-start-while-connecting) — whatever else happens: any
+    bytes, any order of connection results and losses, any timer order, manual stops, late
+    completion of a close, API sends, every decoder behaviour — at most one connection is live
+    (an attempt in flight, or connected and not being closed by the agent); and every
+    connection that is open and not being closed is the one the state machine tracks, in a session
+    state (so none is "left open and unreferenced").  The invariant [SR] fixes, per FSM state,
+    which connection may be live: session states — the tracked one; Connect — the newest one, still
+    connecting; Idle — only the newest, still connecting, after an operator stop that did not abort
+    it (then no timer is pending); together with [RP] (C02), "closing = disconnected" on every
+    connection record, timer well-formedness, "no hold/keepalive timer outside a session".  Every
+    generated FSM method, callback, the framing loop (induction on fuel) and every driver event
+    preserve it.  (Proving it found three defects of the code, repaired: 0a14c4f, bdf7c18, 771df94.) *)
+Theorem C12_at_most_one_outside_known_findings : forall (D : decoders) cf capl es,
+  guarded_run D (step D (world0 cf capl) EBoot) es ->
+  let w := run D (world0 cf capl) (EBoot :: es) in
+  (live_count w <= 1)%nat /\
+  (forall i k, nth_error (w_conns w) i = Some k -> c_st k = CConnected -> c_closing k = false ->
+     w_proto w = Some i).
+Proof.
+  intros D cf capl es Hg w.
+  destruct (single_connection D cf capl es Hg) as (_ & Hu & Ht). fold w in Hu, Ht.
+  split.
+  - unfold live_count.
+    apply filter_le1. intros i j ki kj Ei Ej Li Lj. rewrite C12_live_same in Li, Lj. eapply Hu; eauto.
+  - intros i k Ei Hc Hcl. apply (Ht i k Ei Hc Hcl).
+Qed.
+Print Assumptions C12_at_most_one_outside_known_findings.
+
+(** non-vacuity: a guarded run with a full session, an error, the late completion of the close
+    after the next attempt has started, and a second session *)
+Example C12_guarded_run_example :
+  let es := [EConnOk 0; EData 0 (repeat 255 16 ++ [0; 29; 1; 4; 0; 0; 0; 90; 10; 0; 0; 2; 0]);
+             EData 0 (repeat 255 16 ++ [0; 19; 4]); EData 0 (repeat 0 16 ++ [0; 19; 4]);
+             EFire TIdleHold; ELost 0; EConnOk 1] in
+  let Dk := mkDec (fun _ => OpOk 65002 90 []) (fun _ _ => UpOk) in
+  guarded_run Dk (step Dk (world0 cf0 []) EBoot) es /\
+  w_state (run Dk (world0 cf0 []) (EBoot :: es)) = StOpenSent /\
+  live_count (run Dk (world0 cf0 []) (EBoot :: es)) = 1%nat.
+Proof. vm_compute. repeat split; intros i k; destruct i as [|[|[|i]]]; cbn; intros; congruence. Qed.
